@@ -355,6 +355,14 @@ where
     T: core::str::FromStr<Err = core::num::ParseIntError>,
 {
     use core::num::IntErrorKind;
+    // Only plain integers take this path: `1590E-1` is 159 and must not be reported as an
+    // overflow because its digits `1590` do not fit.
+    if !value
+        .iter()
+        .all(|c| c.is_ascii_digit() || *c == b'+' || *c == b'-')
+    {
+        return Err(lexical_core::Error::InvalidDigit(0));
+    }
     let s = str::from_utf8(value).map_err(|_| lexical_core::Error::InvalidDigit(0))?;
     s.parse::<T>().map_err(|e| match e.kind() {
         IntErrorKind::PosOverflow => lexical_core::Error::Overflow(0),
